@@ -182,6 +182,15 @@ def check_life(pid, tier, seed):
             json.dump({"property": pid, "kind": "config", "what": text, "record": rec}, open(pth, "w"))
             print(f"VIOLATION property={pid} replay={pth}")
         e2e_viol = est["violations"]
+    if "e2e_iso" in spec.get("extra", []):
+        from . import e2e
+        est = e2e.iso_check(seed, tier, wd)
+        os.makedirs(REPLAYS, exist_ok=True)
+        for n, (runno, text, rec) in enumerate(est["violations"][:2]):
+            pth = f"{REPLAYS}/{pid}_e2e{n}.json"
+            json.dump({"property": pid, "kind": "e2e", "what": text, "record": rec}, open(pth, "w"))
+            print(f"VIOLATION property={pid} replay={pth}")
+        e2e_viol = est["violations"]
     # 4. conformance verdict: the recorded runs of the instances' scenarios must be behaviours of Trampoline.tla
     conf = conformance(files, wd, 0 if thorough else 60000)
     for name, st in conf.items():
@@ -486,7 +495,8 @@ def check_c17(tier, seed):
     run.cargo_build()
     thorough = tier == "thorough"
     g, d, _ = tlc_plain("WireMC.tla", "WireMC.cfg", wd)
-    js = wiregen.jobs(seed, 4000 if thorough else 500) + wiregen.cut_jobs(seed, 3000 if thorough else 300)
+    js = wiregen.jobs(seed, 4000 if thorough else 500) + wiregen.cut_jobs(seed, 3000 if thorough else 300) \
+        + wiregen.burst_jobs(seed, 1500 if thorough else 200)
     if not thorough:
         # every single cut position is kept in quick too, but spread over the seeds: a third per run
         cj = [j for j in js if j["run"] >= 100000 and len(j["steps"]) == 4]
